@@ -28,6 +28,12 @@ Function kinds: every header has a kind (def, async def, async generator, genera
 Implementation-only streams: decorated (contextmanager / asynccontextmanager / lru_cache / wraps wrapper / static- and
   classmethod: nested def vs module-level def vs importer), extra (Callable/TypedDict/Protocol/TypeVar forms, Annotated metadata built by a call),
   methods (parameter kinds of methods with __x parameters, def node vs function object, classes with leading underscores).
+Dotted names: a generated library package (a temporary directory removed at exit) provides attributes by every mechanism
+  Python has — module __dict__, submodule, module-level __getattr__ (PEP 562), metaclass __getattr__, class __dict__, the MRO,
+  a property, an instance attribute — plus missing ones; chains `L.Static`, `L.sub.Inner`, `L.Box.Dyn`, `alias.Lazy`, … are used
+  quoted, unquoted and under the future import in all streams. Lean: one attribute table for every route (`withAttrs`,
+  `attr_routes_agree`); translate() pins the attribute-resolution primitives of the annotation routes
+  (annotation_attr_primitives_registered).
 Names: annotations use names through an explicit environment (Lean `NameEnv`): module-level names shadowing a builtin
 (complex, TimeoutError, Warning), builtin-only, module-only, undefined, bound after the defs — quoted, unquoted, under
 `from __future__ import annotations`, in nested / module-level / imported defs.
@@ -53,6 +59,9 @@ ANCHORS = [
     ("pyanalyze/annotations.py", "_eval_forward_ref"),
     ("pyanalyze/annotations.py", "_Visitor"),
     ("pyanalyze/annotations.py", "Context.get_name_from_globals"),
+    ("pyanalyze/annotations.py", "Context.get_attribute"),
+    ("pyanalyze/annotations.py", "_Visitor.visit_Attribute"),
+    ("pyanalyze/name_check_visitor.py", "NameCheckVisitor.composite_from_attribute"),
     ("pyanalyze/annotations.py", "Context.handle_undefined_name"),
     ("pyanalyze/annotations.py", "_DefaultContext.get_name"),
     ("pyanalyze/arg_spec.py", "AnnotationsContext.get_name"),
@@ -202,12 +211,57 @@ def scan_return_branches(repo):
     return rows
 
 
+ATTR_SCOPES = {
+    # file -> the classes / functions whose attribute-resolution primitives lie on an annotation route (None = the whole file)
+    "pyanalyze/annotations.py": None,
+    "pyanalyze/arg_spec.py": ["AnnotationsContext"],
+    "pyanalyze/name_check_visitor.py": ["NameCheckVisitor.resolve_name", "NameCheckVisitor.visit_Attribute",
+                                        "NameCheckVisitor.composite_from_attribute", "NameCheckVisitor._get_attribute",
+                                        "NameCheckVisitor.get_attribute", "NameCheckVisitor._get_attribute_no_mvv",
+                                        "NameCheckVisitor.value_of_annotation", "NameCheckVisitor._visit_annotation"],
+}
+
+
+def scan_attr_primitives(repo):
+    """(file, enclosing function, primitive, number of uses) for the attribute-resolution primitives on annotation routes:
+    getattr(, getattr_static(, hasattr(, a `.__dict__[…]` subscript, and calls of *get_attribute*."""
+    rows = []
+    for rel, scopes in ATTR_SCOPES.items():
+        tree = ast.parse(open(os.path.join(repo, rel)).read())
+        counts = {}
+
+        def visit(node, qual):
+            for ch in ast.iter_child_nodes(node):
+                q = qual
+                if isinstance(ch, (ast.FunctionDef, ast.AsyncFunctionDef, ast.ClassDef)):
+                    q = (qual + "." if qual else "") + ch.name
+                prim = None
+                if isinstance(ch, ast.Call):
+                    f = ch.func
+                    name = f.id if isinstance(f, ast.Name) else (f.attr if isinstance(f, ast.Attribute) else "")
+                    if name in ("getattr", "getattr_static", "hasattr", "safe_getattr", "hasattr_static"):
+                        prim = name
+                    elif "get_attribute" in name:
+                        prim = name
+                elif isinstance(ch, ast.Subscript) and isinstance(ch.value, ast.Attribute) and ch.value.attr == "__dict__":
+                    prim = "__dict__[]"
+                if prim and (scopes is None or any(qual == sc or qual.startswith(sc + ".") for sc in scopes)):
+                    counts[(qual or "<module>", prim)] = counts.get((qual or "<module>", prim), 0) + 1
+                visit(ch, q)
+
+        visit(tree, "")
+        for (qual, prim), n in sorted(counts.items()):
+            rows.append((rel, qual, prim, str(n)))
+    return rows
+
+
 def translate(ctx):
     """Regenerate Generated/ArgSpecCaches.lean from the tree under check (obligations argspec_caches_registered,
     return_branches_registered)."""
     repo = os.environ.get("VERIF_REPO", "/repo")
     rows = scan_caches(repo)
     branches = scan_return_branches(repo)
+    prims = scan_attr_primitives(repo)
     q = lambda x: '"' + x.replace("\\", "\\\\").replace('"', '\\"') + '"'
     body = ",\n  ".join("(%s, %s, %s, %s)" % tuple(q(x) for x in r) for r in rows)
     text = ("/-! GENERATED by harness/props/c13.py (translate) from the live tree on every run. Do not edit.\n"
@@ -215,11 +269,15 @@ def translate(ctx):
             "key expressions it is stored under). -/\nnamespace Pya.C13\n\n"
             "def argspecCaches : List (String × String × String × String) := [\n  %s]\n\n"
             "/-- where `from_signature` / `compute_value_of_function` assign the return type: (function, branch conditions, value) -/\n"
-            "def returnBranches : List (String × String × String) := [\n  %s]\n\nend Pya.C13\n"
-            % (body, ",\n  ".join("(%s, %s, %s)" % tuple(q(x) for x in r) for r in branches)))
+            "def returnBranches : List (String × String × String) := [\n  %s]\n\n"
+            "/-- the attribute-resolution primitives used on annotation routes: (file, enclosing function, primitive, uses) -/\n"
+            "def attrPrimitives : List (String × String × String × String) := [\n  %s]\n\nend Pya.C13\n"
+            % (body, ",\n  ".join("(%s, %s, %s)" % tuple(q(x) for x in r) for r in branches),
+               ",\n  ".join("(%s, %s, %s, %s)" % tuple(q(x) for x in r) for r in prims)))
     lean.write_if_changed(os.path.join(lean.LEAN, "PyaModel", "Generated", "ArgSpecCaches.lean"), text)
     ctx.extra["argspec_caches"] = rows
     ctx.extra["return_branches"] = branches
+    ctx.extra["attr_primitives"] = prims
 
 
 # ------------------------------------------------------------------ universe
@@ -266,16 +324,58 @@ NAMES = [
     dict(id=8, text="Reb", kind="r", early=("cls", A_), late=("cls", B_), builtin=None),
     dict(id=9, text="Warning", kind="a", early=("cls", IE_), late=("cls", IE_), builtin=("opq", 1)),
 ]
+# ---- dotted names: a generated library package whose attributes are provided by every mechanism Python has
+import atexit, shutil, tempfile
+_LIBDIR = tempfile.mkdtemp(prefix="verif-C13-lib-", dir=os.environ.get("VERIF_SCRATCH", "/var/tmp"))
+atexit.register(shutil.rmtree, _LIBDIR, True)
+os.makedirs(os.path.join(_LIBDIR, "c13lib"))
+with open(os.path.join(_LIBDIR, "c13lib", "__init__.py"), "w") as _f:
+    _f.write(
+        "from harness.universe import A, B, Cc, D, Color, IE\n"
+        "Static = A\n"                                  # a module __dict__ entry
+        "from . import sub\n"                           # a submodule
+        "class _Meta(type):\n    def __getattr__(cls, name):\n        if name == 'Dyn':\n            return D\n"
+        "        raise AttributeError(name)\n"          # a metaclass __getattr__
+        "class Box(metaclass=_Meta):\n    Inner = A\n"  # a class __dict__ entry
+        "class Derived(Box):\n    pass\n"              # inherited through the MRO
+        "class _Holder:\n    def __init__(self):\n        self.Field = Color\n"   # an instance attribute
+        "    @property\n    def Prop(self):\n        return IE\n"                 # a property on the object's type
+        "inst = _Holder()\n"
+        "def __getattr__(name):\n    if name == 'Lazy':\n        return B\n    raise AttributeError(name)\n"   # PEP 562
+    )
+with open(os.path.join(_LIBDIR, "c13lib", "sub.py"), "w") as _f:
+    _f.write("from harness.universe import Cc\nInner = Cc\n")
+sys.path.insert(0, _LIBDIR)
+ATTR_TEXT = {0: "Static", 1: "sub", 2: "Lazy", 3: "Box", 4: "Derived", 5: "inst", 6: "Inner", 7: "Dyn", 8: "Prop", 9: "Field",
+             10: "Missing"}
+# (object, attribute, mechanism, target); objects: 0 = the package, 1 = its submodule, 2 = Box, 3 = Derived, 4 = inst
+ATTRS = [
+    (0, 0, "module __dict__", ("cls", A_)), (0, 1, "submodule", ("obj", 1)), (0, 2, "module __getattr__", ("cls", B_)),
+    (0, 3, "module __dict__", ("obj", 2)), (0, 4, "module __dict__", ("obj", 3)), (0, 5, "module __dict__", ("obj", 4)),
+    (1, 6, "module __dict__", ("cls", V.CID[U.Cc])),
+    (2, 6, "class __dict__", ("cls", A_)), (2, 7, "metaclass __getattr__", ("cls", V.CID[U.D])),
+    (3, 6, "MRO", ("cls", A_)), (3, 7, "metaclass __getattr__", ("cls", V.CID[U.D])),
+    (4, 8, "property", ("cls", IE_)), (4, 9, "instance attribute", ("cls", COLOR)),
+]
+LIB_NAMES = [dict(id=14, text="L", obj=0), dict(id=15, text="alias", obj=0), dict(id=16, text="Box", obj=2),
+             dict(id=17, text="LS", obj=1)]
+for _n in LIB_NAMES:
+    NAMES.append(dict(id=_n["id"], text=_n["text"], kind="m", early=("obj", _n["obj"]), late=("obj", _n["obj"]), builtin=None))
+# every chain that exists (root name, attributes) and some that do not
+CHAINS = [(14, [0]), (14, [2]), (14, [1, 6]), (14, [3, 6]), (14, [3, 7]), (14, [4, 6]), (14, [4, 7]), (14, [5, 8]), (14, [5, 9]),
+          (15, [0]), (15, [1, 6]), (15, [2]), (16, [6]), (16, [7]), (17, [6])]
+MISSING_CHAINS = [(14, [10]), (14, [1, 10]), (16, [10]), (15, [3, 10])]
 NAME_TEXT = {n["id"]: n["text"] for n in NAMES}
 REBOUND = os.environ.get("C13_NO_REBOUND") != "1"
-EARLY_NAMES = [n["id"] for n in NAMES if (n["early"] or n["builtin"]) and n["kind"] != "r"]   # usable unquoted
-QUOTED_NAMES = [n["id"] for n in NAMES if n["kind"] not in ("r", "d")]                          # usable inside strings
+EARLY_NAMES = [n["id"] for n in NAMES if (n["early"] or n["builtin"]) and n["kind"] not in ("r", "m")]   # usable unquoted
+QUOTED_NAMES = [n["id"] for n in NAMES if n["kind"] not in ("r", "d", "m")]                          # usable inside strings
 UNDEF_NAME, LATER_NAME, REB_NAME = 6, 7, 8
 
 HEADER = (
     "from typing import *\nimport typing\nimport collections.abc as cabc\n"
     "from harness.universe import A, B, Cc, D, Color, IE, Fl, NT0, NT1, NT2\n"
     "complex = B\nTimeoutError = Cc\nWarning = IE\nMyInt = int\nMyList = List\nReb = A\nARGB = B()\n"
+    "import c13lib as L\nfrom c13lib import Box\nfrom c13lib import sub as LS\nalias = L\n"
 )
 FOOTER = "Later = D\nReb = B\n"
 
@@ -287,9 +387,10 @@ def _tgt(t):
 def _env_sexp():
     def layer(key):
         return " ".join("(%d %s)" % (n["id"], _tgt(n[key])) for n in NAMES if n[key] is not None)
-    return "(env (early %s) (late %s) (builtins %s))" % (layer("early"), layer("late"), layer("builtin"))
+    return "(env (early %s) (late %s) (builtins %s) %s)" % (layer("early"), layer("late"), layer("builtin"), _ATTRS_SEXP)
 
 
+_ATTRS_SEXP = "(attrs %s)" % " ".join("(%d %d %s)" % (k, a, _tgt(t)) for k, a, _, t in ATTRS)
 ENV_SEXP = _env_sexp()
 
 
@@ -368,6 +469,8 @@ def render(t, top=True):
         s = repr(inner)
     elif k == "name":
         s = NAME_TEXT[t[1]]
+    elif k == "dot":
+        s = ".".join([NAME_TEXT[t[1]]] + [ATTR_TEXT[a] for a in t[2]])
     else:
         raise ValueError(t)
     return s
@@ -381,6 +484,8 @@ def sexp(t):
         return "(%s %d)" % (k, t[1])
     if k == "nt":
         return "(nt %d %d)" % (t[1], NT_CLS[t[1]])
+    if k == "dot":
+        return "(dot %d %s)" % (t[1], " ".join(str(a) for a in t[2]))
     o = lambda b: "o" if b else "n"
     if k == "gen":
         return "(gen %s %d %s)" % (o(t[1]), t[2], " ".join(sexp(x) for x in t[3]))
@@ -414,6 +519,8 @@ def tt(x):
         return tuple(x)
     if h in ("none", "anyT"):
         return (h,)
+    if h == "dot":
+        return ("dot", x[1], list(x[2]))
     if h == "gen":
         return ("gen", x[1], x[2], [tt(y) for y in x[3]])
     if h == "tup":
@@ -543,7 +650,7 @@ def name_terms():
     """Every kind of name (shadowing a builtin, builtin only, module only, undefined, bound after the def) in every
     position a lookup can happen: whole quoted annotation, inside a quoted expression, a string nested in a generic."""
     out = []
-    ids = [n["id"] for n in NAMES if n["kind"] != "r" or REBOUND]
+    ids = [n["id"] for n in NAMES if (n["kind"] != "r" or REBOUND) and n["kind"] != "m"]
     for i in ids:
         N = ("name", i)
         out += [("str", N), ("str", ("gen", True, LIST, [N])), ("str", ("opt", N)), ("str", ("bor", N, ("none",))),
@@ -558,6 +665,21 @@ def name_terms():
     return out
 
 
+def dotted_terms():
+    """Every attribute chain of the generated library (each hop by another mechanism) in every position a lookup happens;
+    chains with a missing attribute only where every route must report them (inside strings)."""
+    out = []
+    for n, p in CHAINS:
+        N = ("dot", n, p)
+        out += [N, ("str", N), ("gen", True, LIST, [N]), ("str", ("gen", True, LIST, [N])), ("opt", N), ("str", ("bor", N, ("none",))),
+                ("gen", False, LIST, [("str", N)]), ("gen", True, DICT, [("cls", STR), ("str", N)]), ("typ", False, N),
+                ("tup", False, [N, ("str", N)]), ("union", [N, ("cls", INT)]), ("ann", N, 1)]
+    for n, p in MISSING_CHAINS:
+        N = ("dot", n, p)
+        out += [("str", N), ("str", ("gen", True, LIST, [N])), ("gen", False, LIST, [("str", N)]), ("str", ("opt", N))]
+    return out
+
+
 def with_undefined(rng, t):
     """A whole-quoted copy of t in which one atom has become an undefined name."""
     done = [False]
@@ -566,7 +688,7 @@ def with_undefined(rng, t):
         k = x[0]
         if done[0]:
             return x
-        if k in ("cls", "name", "nt", "bare", "anyT", "none") and rng.random() < 0.5:
+        if k in ("cls", "name", "nt", "bare", "anyT", "none", "dot") and rng.random() < 0.5:
             done[0] = True
             return ("name", UNDEF_NAME)
         if k == "gen":
@@ -590,7 +712,7 @@ def with_undefined(rng, t):
 
 
 def exhaustive_terms():
-    out = list(ATOMS) + [("lit", l) for l in LITS] + tuple_specials() + name_terms()
+    out = list(ATOMS) + [("lit", l) for l in LITS] + tuple_specials() + name_terms() + dotted_terms()
     for a in ATOMS:
         out += unary(a)
     for a in CORE_ATOMS:
@@ -628,6 +750,9 @@ def gen_term(rng, depth, mem=False, quoted=False):
     if depth <= 0 or r < 0.3:
         if rng.random() < 0.15:
             return ("lit", [rng.choice(LIT_OBJS) for _ in range(rng.randint(1, 3))])
+        if rng.random() < 0.1:
+            n_, p_ = rng.choice(CHAINS)
+            return ("dot", n_, p_)
         return rng.choice(ATOMS)
     r = rng.random()
     sub = lambda: gen_term(rng, depth - 1, quoted=quoted)
@@ -953,6 +1078,7 @@ def eval_ann(ctx, terms, with_model=True, origin="gen"):
         supported = m is None or m.get("S") == "1"
         dcls = None
         conforms = True
+        has_missing = any(_has_chain(t, c_) for c_ in MISSING_CHAINS)
         # ---- the property on the implementation: all readings agree up to representation
         cs = {k: (v if (v is None or v == "EXC") else canon_res(v)) for k, v in impl.items()}
         keys = [k for k in cs if cs[k] is not None]
@@ -973,6 +1099,10 @@ def eval_ann(ctx, terms, with_model=True, origin="gen"):
                     ctx.tag("ann_unencodable")
                     continue
                 # the visitor may show the same annotation error once per pass: compare "some error" only there
+                if stream in ("src", "qsrc") and has_missing and ";" in str(iv) and ";" in str(mv):
+                    # the visitor-backed context reports a missing attribute of a quoted annotation at the string's own
+                    # coordinates (line 1), not on the def line: the error cannot be attributed to the case here
+                    iv, mv = iv.split(";")[0] + ";0;0", mv.split(";")[0] + ";0;0"
                 c = cmp_res(iv, mv, errs_exact=stream not in ("src", "qsrc"))
                 if c == "order" and stream in ("src", "rt"):
                     # typing's subscription cache is keyed by `==`, which ignores union member order: `List[int | str]` may hand back
@@ -1089,7 +1219,8 @@ def kind_headers():
     return out
 
 
-SMALL_ANN = [None, ("cls", INT), ("str", ("name", 0)), ("opt", ("cls", STR)), ("name", 0), ("str", ("name", LATER_NAME))]
+SMALL_ANN = [None, ("cls", INT), ("str", ("name", 0)), ("opt", ("cls", STR)), ("name", 0), ("str", ("name", LATER_NAME)),
+             ("str", ("dot", 14, [2])), ("dot", 14, [3, 7])]
 SMALL_DFLT = [("int", 1), ("none",), "ell"]
 
 
@@ -1181,7 +1312,10 @@ def random_header(rng, ann_depth=1):
             if REBOUND:
                 pool += [REB_NAME, REB_NAME]
             t = ("name", rng.choice(pool))
-            if rng.random() < 0.3 and t[1] != UNDEF_NAME:
+            if rng.random() < 0.35:
+                n_, p_ = rng.choice(CHAINS + (MISSING_CHAINS if quoted else []))
+                t = ("dot", n_, p_)
+            if rng.random() < 0.3 and t[1] != UNDEF_NAME and (t[0] != "dot" or (t[1], t[2]) not in MISSING_CHAINS):
                 t = rng.choice([("opt", t), ("gen", True, LIST, [t]), ("bor", t, ("none",))])
             return ("str", t) if quoted else t
         t = gen_term(rng, ann_depth, quoted=h["future"])
@@ -1615,7 +1749,8 @@ def mod_env_sexp(k):
     extra = " ".join("(%d %s)" % (n, _tgt(t)) for n, (_, t) in MOD_BIND[k].items() if t is not None)
     def layer(key):
         return " ".join("(%d %s)" % (n["id"], _tgt(n[key])) for n in NAMES if n[key] is not None)
-    return "(env (early %s %s) (late %s %s) (builtins %s))" % (layer("early"), extra, layer("late"), extra, layer("builtin"))
+    return "(env (early %s %s) (late %s %s) (builtins %s) %s)" % (layer("early"), extra, layer("late"), extra, layer("builtin"),
+                                                                  _ATTRS_SEXP)
 
 
 def multi_headers(rng, nrand):
@@ -2022,12 +2157,24 @@ def _mentions(t, name_id, outer_only=False):
         return False
     if t[0] == "name":
         return t[1] == name_id
+    if t[0] == "dot":
+        return t[1] == name_id
     if t[0] == "str" and outer_only:
         return False
     if t[0] == "lit":
         return False
     return any(_mentions(x, name_id, outer_only) or (isinstance(x, list) and any(_mentions(y, name_id, outer_only) for y in x))
                for x in t[1:])
+
+
+def _has_chain(t, chain):
+    if not isinstance(t, (list, tuple)) or not t:
+        return False
+    if t[0] == "dot":
+        return (t[1], list(t[2])) == (chain[0], list(chain[1]))
+    if t[0] == "lit":
+        return False
+    return any(_has_chain(x, chain) or (isinstance(x, list) and any(_has_chain(y, chain) for y in x)) for x in t[1:])
 
 
 def corpus():
